@@ -388,6 +388,10 @@ def _build_cp_atom_payload(sequence, restrict, payload_form=False, interner=None
 
     for data in i:
         if is_global(data):
+            # a chunk removes its negatives before it adds its positives
+            for p in data.pos:
+                if not is_locked(p):
+                    locked[p] = True
             for n in data.neg:
                 if is_wildcard(n):
                     # kept apart from the flags; 'PREFIX_*' can also be the name of an enabled glob
@@ -395,9 +399,6 @@ def _build_cp_atom_payload(sequence, restrict, payload_form=False, interner=None
                         wildcards.append(n)
                 elif not is_locked(n):
                     locked[n] = False
-            for p in data.pos:
-                if not is_locked(p):
-                    locked[p] = True
             prefixes.extend(n[:-1] for n in data.neg if n.endswith("_*"))
             if "*" in data.neg:
                 # everything earlier is wiped for every package
